@@ -75,13 +75,20 @@ impl Input {
 
 /// Common oracle for every quorum strategy: size, membership, determinism; `extra` adds
 /// per-strategy guarantees on each drawn committee.
-fn check_quorum<S: QuorumSamplingStrategy>(
+fn check_quorum<S: QuorumSamplingStrategy>(ctx: &mut Ctx, name: &str, inp: &Input, build: impl Fn() -> S, seeds: &[u64], extra: impl Fn(&[usize]) -> Option<String>) {
+    check_quorum_h(ctx, name, inp, build, seeds, extra, None)
+}
+
+/// `single_draws`: for strategies that also serve single draws, performs k of them on the given instance.
+#[allow(clippy::type_complexity)]
+fn check_quorum_h<S: QuorumSamplingStrategy>(
     ctx: &mut Ctx,
     name: &str,
     inp: &Input,
     build: impl Fn() -> S,
     seeds: &[u64],
     extra: impl Fn(&[usize]) -> Option<String>,
+    single_draws: Option<&dyn Fn(&S, &mut StdRng, usize)>,
 ) {
     ctx.eval();
     ctx.distinct(format!("{name}:{}:{}:k{}", inp.family, nbucket(inp.stakes.len()), kbucket(inp.k)));
@@ -118,6 +125,17 @@ fn check_quorum<S: QuorumSamplingStrategy>(
         ctx.count(&format!("draws:{name}"));
         let mut r1 = StdRng::seed_from_u64(seed);
         let mut r2 = StdRng::seed_from_u64(seed);
+        // the two instances have different pasts: one of them also served single draws in between (relay
+        // look-ups use them); a committee is a function of the validator set and the random source only
+        if seed % 2 == 1 {
+            if let Some(pre) = single_draws {
+                let mut rx = StdRng::seed_from_u64(seed ^ 0x5eed);
+                let k = 1 + (seed % 3) as usize;
+                if guarded(|| pre(&a, &mut rx, k)).is_ok() {
+                    ctx.count("single-draws-before-a-committee");
+                }
+            }
+        }
         let qa = guarded(|| a.sample_quorum(&mut r1));
         let qb = guarded(|| b.sample_quorum(&mut r2));
         let (qa, qb) = match (qa, qb) {
@@ -225,7 +243,12 @@ fn one_input(ctx: &mut Ctx, rng: &mut SRng, n: usize, family: &str, k: usize, ns
     // satisfiable when n * ceil(m) >= k, otherwise the configuration itself is contradictory
     for m in [1.0f64, 2.0, 2.5, 64.0] {
         if (n as f64) * m.ceil() >= k as f64 * 1.0 && (m > 1.0 || n >= k) {
-            check_quorum(ctx, &format!("DecayingAcceptance(m={m})"), &inp, || DecayingAcceptanceSampler::new(v(), m, k), &seeds, cap_guarantee(m.ceil() as u64));
+            let pre = |s: &DecayingAcceptanceSampler, r: &mut StdRng, k: usize| {
+                for _ in 0..k {
+                    let _ = s.sample(r);
+                }
+            };
+            check_quorum_h(ctx, &format!("DecayingAcceptance(m={m})"), &inp, || DecayingAcceptanceSampler::new(v(), m, k), &seeds, cap_guarantee(m.ceil() as u64), Some(&pre));
         }
     }
     check_quorum(ctx, "Partition", &inp, || PartitionSampler::new(v(), k), &seeds, none);
